@@ -131,6 +131,14 @@ func readProp(repo, vocabDir, propDir string) *PropInfo {
 		shapeErr("%s: no propName", pi.Struct)
 	}
 	pi.HasMap = strings.Contains(tb, `m[propName+"Map"]`)
+	// a property with a <name>Map spelling offers the language-map accessors on its element (the property itself when
+	// functional, its iterator otherwise) - whatever else its range holds; a property without one does not
+	for _, meth := range []string{"HasLanguage", "GetLanguage", "SetLanguage"} {
+		_, has := fm[pi.ElemStruct+"."+meth]
+		if has != pi.HasMap {
+			shapeErr("%s: <name>Map spelling %v but method %s.%s present %v", pi.Struct, pi.HasMap, pi.ElemStruct, meth, has)
+		}
+	}
 	readDeserChain(pi, des, flags)
 	// serialize chain
 	serName := ".serialize"
